@@ -45,9 +45,11 @@ def classify_out(line):
     if line.startswith("info"):
         return {"k": "info", "info": parse_info(line)}
     if line.startswith("bestmove"):
+        # UCI: bestmove <move> [ponder <move>]
         toks = line.split(" ")
-        mv = toks[1] if len(toks) == 2 else "?"
-        return {"k": "bestmove", "move": mv, "wellformed": len(toks) == 2 and (bool(MOVE_RE.match(mv)) or mv in ("0000", "(none)"))}
+        shape = len(toks) == 2 or (len(toks) == 4 and toks[2] == "ponder" and bool(MOVE_RE.match(toks[3])))
+        mv = toks[1] if shape else "?"
+        return {"k": "bestmove", "move": mv, "wellformed": shape and (bool(MOVE_RE.match(mv)) or mv in ("0000", "(none)"))}
     if line == "readyok":
         return {"k": "readyok"}
     if line == "uciok":
